@@ -8,10 +8,11 @@ from gen import dbgen, hdrgen
 from props.c12 import workdir, run_both
 
 THEOREMS = ["IgVerif.C11.c11_field_coverage", "IgVerif.C11.c11_index_members_found", "IgVerif.C11.c11_wrappers_first",
-            "IgVerif.C11.c11_ranges", "IgVerif.C11.c11_order_preserved", "IgVerif.renumber_spec"]
-PARTIAL = [("c11_closed_preserved (Closed db -> Closed (remap_indices db))",
-            "closure preservation is established by the correspondence stream `remap-model` (model = real remap_indices on closed and dangling "
-            "databases) together with c11_field_coverage; the Lean statement over refsRec is not proved yet"),
+            "IgVerif.C11.c11_ranges", "IgVerif.C11.c11_order_preserved", "IgVerif.renumber_spec",
+            "IgVerif.C11.c11_covers", "IgVerif.C11.c11_closed_preserved", "IgVerif.closed_remap", "IgVerif.refsRec_remap"]
+PARTIAL = [("c11_closed_preserved for databases in which two kinds share an index",
+            "c11_closed_preserved assumes that no index is used by entries of two kinds and that 0 is not an index (true of everything "
+            "remap_indices itself produced: c11_ranges); hand-made files violating that are covered by the correspondence stream `remap-model` only"),
            ("c11_signature_agrees", "agreement of generated C signatures with the recorded types is a g++ redeclaration check (exploration), not a theorem")]
 
 OPTION_SETS = [
